@@ -5,11 +5,14 @@ import (
 	"encoding/json"
 	"fmt"
 	"os"
+	"reflect"
+	"regexp"
 	"runtime/debug"
 	"sort"
 	"strconv"
 	"strings"
 	"sync"
+	"time"
 
 	"github.com/deckhouse/deckhouse/pkg/log"
 	"github.com/hashicorp/go-multierror"
@@ -98,6 +101,9 @@ func c13Resolvable(apiVersion, kind string) bool {
 type c13Obj map[int]int // field id (1-based) -> value n
 
 func (k *c13Kind) val(n int) any {
+	if n >= c13ExoBase {
+		return c13ExoVal{n - c13ExoBase}
+	}
 	if k.ints {
 		return n
 	}
@@ -105,10 +111,204 @@ func (k *c13Kind) val(n int) any {
 }
 
 func (k *c13Kind) tok(n int) string {
+	if n >= c13ExoBase {
+		// two JSON texts may denote one value (MaxInt64 and MaxInt64+1 are the same float64)
+		for i, e := range c13Exotics {
+			if reflect.DeepEqual(e.want, c13Exotics[n-c13ExoBase].want) {
+				return e.class + strconv.Itoa(c13ExoBase+i)
+			}
+		}
+	}
 	if k.ints {
 		return "i" + strconv.Itoa(n)
 	}
 	return "s" + strconv.Itoa(n)
+}
+
+// ---------------------------------------------------------------- scalars the two decoders type differently
+//
+// "The same documents written as JSON or as YAML": a scalar of the table below is ONE JSON value (`json`,
+// the text a hook would write into a JSON patch file) and the spellings of the same value a hook may
+// write into a YAML patch file (`yaml`; "" = the rendering sigs.k8s.io/yaml gives for the JSON text).
+// yaml.v3 resolves these spellings to Go types encoding/json never yields (int, uint64 for integers
+// above MaxInt64, time.Time for unquoted timestamps, bool / nil for several spellings) or to the same
+// type by another route (hex / octal integers, exponents, folded long strings, strings that would be
+// another type if they were not quoted). For the model such a scalar is one more interned value
+// (`i<1000+k>`: a number literal, `s<1000+k>`: a string-like scalar): what it has to be after decoding
+// is what encoding/json - used by the harness itself, on the JSON text - makes of it.
+const c13ExoBase = 1000
+
+type c13Exo struct {
+	class string   // "i": a number literal, "s": any other scalar
+	json  string   // the scalar as JSON text
+	yaml  []string // spellings of the same scalar in a YAML document
+	want  any      // json.Unmarshal(json) into any: float64 | string | bool
+	str   bool     // usable as a ConfigMap data value (a JSON string)
+}
+
+func c13MkExo(class, js string, yaml ...string) c13Exo {
+	var want any
+	if err := json.Unmarshal([]byte(js), &want); err != nil {
+		panic("c13 exotic table: " + js + ": " + err.Error())
+	}
+	_, isStr := want.(string)
+	if len(yaml) == 0 {
+		yaml = []string{""}
+	}
+	return c13Exo{class: class, json: js, yaml: yaml, want: want, str: isStr}
+}
+
+func c13Q(s string) string { b, _ := json.Marshal(s); return string(b) }
+
+var c13Exotics = []c13Exo{
+	// integers around and above the int64 range (yaml.v3: int / uint64 / float64)
+	c13MkExo("i", "18446744073709551615", "18446744073709551615", "0xFFFFFFFFFFFFFFFF"),
+	c13MkExo("i", "9223372036854775808", "9223372036854775808"),
+	c13MkExo("i", "9223372036854775807", "9223372036854775807", "0x7FFFFFFFFFFFFFFF"),
+	c13MkExo("i", "-9223372036854775808", "-9223372036854775808"),
+	c13MkExo("i", "12345678901234567890", "12345678901234567890"),
+	c13MkExo("i", "1000000000000000000000000000000", "1000000000000000000000000000000", "1e+30"),
+	// floats, exponents
+	c13MkExo("i", "1e+21", "1e+21", "1.0e+21", "1E21"),
+	c13MkExo("i", "1.5e-07", "1.5e-07", "1.5e-7", "0.00000015"),
+	c13MkExo("i", "2.5", "2.5", "2.50", "25e-1"),
+	// hex / octal spellings of a small integer
+	c13MkExo("i", "31", "0x1F", "0o37", "31"),
+	// timestamps: an unquoted YAML timestamp is the scalar whose canonical form is the RFC 3339 string
+	c13MkExo("s", c13Q("2024-05-01T00:00:00Z"), "2024-05-01", "2024-05-01T00:00:00Z"),
+	c13MkExo("s", c13Q("2001-12-14T21:59:43Z"), "2001-12-14T21:59:43Z", "2001-12-14t21:59:43Z"),
+	// booleans
+	c13MkExo("s", "true", "true", "True", "TRUE"),
+	c13MkExo("s", "false", "false", "False"),
+	// strings that would be another type if they were not quoted
+	c13MkExo("s", c13Q("yes"), "", `"yes"`, `'yes'`),
+	c13MkExo("s", c13Q("off"), "", `"off"`),
+	c13MkExo("s", c13Q("~"), "", `"~"`),
+	c13MkExo("s", c13Q("null"), "", `'null'`),
+	c13MkExo("s", c13Q("123"), "", `"123"`, `'123'`),
+	c13MkExo("s", c13Q("0x1F"), "", `"0x1F"`),
+	c13MkExo("s", c13Q("1e3"), "", `'1e3'`),
+	c13MkExo("s", c13Q("2024-05-01"), "", `"2024-05-01"`, `'2024-05-01'`),
+	c13MkExo("s", c13Q("18446744073709551615"), "", `"18446744073709551615"`),
+	c13MkExo("s", c13Q(""), "", `""`, `''`),
+	// the same scalars one level down: inside a map / a list (written in flow style)
+	c13MkExo("s", `{"limit":18446744073709551615,"since":"2024-05-01T00:00:00Z"}`,
+		"{limit: 18446744073709551615, since: 2024-05-01}", "{limit: 0xFFFFFFFFFFFFFFFF, since: 2024-05-01T00:00:00Z}", ""),
+	c13MkExo("s", `[1e+21,31,true,"yes"]`, `[1e+21, 0x1F, True, "yes"]`, `[1E21, 31, true, 'yes']`, ""),
+	// very long strings (the second one is folded by the YAML emitter)
+	c13MkExo("s", c13Q(strings.Repeat("x", 700))),
+	c13MkExo("s", c13Q(strings.TrimSpace(strings.Repeat("lorem ipsum dolor ", 40)))),
+	// LAST entry, never drawn as a value: null, the "delete this field" of a merge patch, in its YAML spellings
+	c13MkExo("s", "null", "~", "null", "Null", "NULL"),
+}
+
+var c13NullIdx = len(c13Exotics) - 1
+
+// c13ExoVal is the value put into the generic document; JSON rendering writes the JSON text.
+type c13ExoVal struct{ idx int }
+
+func (v c13ExoVal) MarshalJSON() ([]byte, error) { return []byte(c13Exotics[v.idx].json), nil }
+
+// exo picks an exotic scalar for a field of kind k (ConfigMap data: strings only).
+func (g *c13Gen) exo(k *c13Kind) int {
+	for {
+		i := g.rng.Intn(c13NullIdx)
+		if k.ints || c13Exotics[i].str {
+			return c13ExoBase + i
+		}
+	}
+}
+
+// c13ExoTok: the token of a decoded value that is an exotic scalar - only if it has a Go type the
+// JSON world knows (float64, int64 after a trip through the API machinery, string, bool).
+func c13ExoTok(v any) (string, bool) {
+	n, ok := c13JSONNorm(v)
+	if !ok {
+		return "", false
+	}
+	for i, e := range c13Exotics {
+		if reflect.DeepEqual(n, e.want) {
+			return e.class + strconv.Itoa(c13ExoBase+i), true
+		}
+	}
+	return "", false
+}
+
+// c13JSONNorm: v with every int64 (integers after a trip through the API machinery) as float64;
+// false when v holds a Go type the JSON world does not know (int, uint64, time.Time, ...).
+func c13JSONNorm(v any) (any, bool) {
+	switch x := v.(type) {
+	case float64, string, bool:
+		return v, true
+	case int64:
+		return float64(x), true
+	case map[string]any:
+		o := map[string]any{}
+		for k, e := range x {
+			n, ok := c13JSONNorm(e)
+			if !ok {
+				return nil, false
+			}
+			o[k] = n
+		}
+		return o, true
+	case []any:
+		o := make([]any, len(x))
+		for i, e := range x {
+			n, ok := c13JSONNorm(e)
+			if !ok {
+				return nil, false
+			}
+			o[i] = n
+		}
+		return o, true
+	}
+	return nil, false
+}
+
+var c13Placeholder = regexp.MustCompile(`XQ([0-9]+)S([0-9]+)QX`)
+
+// c13YAMLDoc renders one generic document as YAML; exotic scalars are written in the spelling
+// number (salt + occurrence) of their table entry ("" = left to the YAML emitter).
+func c13YAMLDoc(m map[string]any, salt *int) []byte {
+	var walk func(v any) any
+	walk = func(v any) any {
+		switch x := v.(type) {
+		case map[string]any:
+			o := map[string]any{}
+			keys := make([]string, 0, len(x))
+			for k := range x {
+				keys = append(keys, k)
+			}
+			sort.Strings(keys)
+			for _, k := range keys {
+				o[k] = walk(x[k])
+			}
+			return o
+		case []any:
+			o := make([]any, len(x))
+			for i, e := range x {
+				o[i] = walk(e)
+			}
+			return o
+		case c13ExoVal:
+			e := c13Exotics[x.idx]
+			sp := *salt % len(e.yaml)
+			*salt++
+			if e.yaml[sp] == "" {
+				return e.want
+			}
+			return fmt.Sprintf("XQ%dS%dQX", x.idx, sp)
+		}
+		return v
+	}
+	b, _ := k8yaml.Marshal(walk(m))
+	return c13Placeholder.ReplaceAllFunc(b, func(ph []byte) []byte {
+		g := c13Placeholder.FindSubmatch(ph)
+		idx, _ := strconv.Atoi(string(g[1]))
+		sp, _ := strconv.Atoi(string(g[2]))
+		return []byte(c13Exotics[idx].yaml[sp])
+	})
 }
 
 func c13ObjTok(k *c13Kind, o c13Obj) string {
@@ -134,9 +334,9 @@ func c13Manifest(key *c13Key, apiVersion string, o c13Obj) map[string]any {
 		root[key.kind.fields[f-1]] = key.kind.val(n)
 	}
 	return map[string]any{
-		"apiVersion": apiVersion,
-		"kind":       key.kind.name,
-		"metadata":   map[string]any{"name": key.name, "namespace": key.ns},
+		"apiVersion":  apiVersion,
+		"kind":        key.kind.name,
+		"metadata":    map[string]any{"name": key.name, "namespace": key.ns},
 		key.kind.root: root,
 	}
 }
@@ -214,14 +414,13 @@ func c13RenderJSON(docs []c13Doc, garbled bool, rng *Rng) []byte {
 	return []byte(sb.String())
 }
 
-func c13RenderYAML(docs []c13Doc, garbled bool) []byte {
+func c13RenderYAML(docs []c13Doc, garbled bool, salt int) []byte {
 	var sb strings.Builder
 	for i, d := range docs {
 		if i > 0 {
 			sb.WriteString("---\n")
 		}
-		b, _ := k8yaml.Marshal(d.m)
-		sb.Write(b)
+		sb.Write(c13YAMLDoc(d.m, &salt))
 	}
 	if garbled {
 		// truncated inside a quoted scalar of one more document
@@ -259,7 +458,18 @@ func c13ValTok(v any) string {
 				return "s" + strconv.Itoa(n)
 			}
 		}
+		if t, ok := c13ExoTok(v); ok {
+			return t
+		}
 		return "?str"
+	}
+	if t, ok := c13ExoTok(v); ok {
+		return t
+	}
+	switch v.(type) {
+	case uint64, time.Time:
+		// Go types neither encoding/json nor the API machinery know: never the value of a JSON document
+		return fmt.Sprintf("?%T", v)
 	}
 	if n, ok := c13Num(v); ok {
 		return "i" + strconv.Itoa(n)
@@ -780,13 +990,19 @@ func c13PanicSite() string {
 // ---------------------------------------------------------------- generator
 
 type c13Gen struct {
-	rng  *Rng
-	hot  []*c13Key
-	c    *Case
-	ints bool // the case contains an inline object with an integer field
+	rng        *Rng
+	hot        []*c13Key
+	c          *Case
+	ints       bool      // the case contains an inline object with an integer field
+	exotic     int       // number of exotic scalars in inline payloads
+	only       []*c13Key // when set: every document addresses one of these objects
+	statusBias int       // percentage of patches forced to subresource "/status" + ignoreHookError
 }
 
 func (g *c13Gen) key() *c13Key {
+	if len(g.only) > 0 {
+		return PickOne(g.rng, g.only)
+	}
 	if g.rng.Chance(85) {
 		return PickOne(g.rng, g.hot)
 	}
@@ -801,6 +1017,16 @@ func (g *c13Gen) obj() c13Obj {
 		}
 	}
 	return o
+}
+
+// n picks a payload value for an INLINE payload of kind k: one of the nine ordinary values or (25%)
+// a scalar the two decoders type differently.
+func (g *c13Gen) n(k *c13Kind, inline bool) int {
+	if inline && g.rng.Chance(25) {
+		g.exotic++
+		return g.exo(k)
+	}
+	return g.rng.Range(1, 9)
 }
 
 // apiVersion written into a delete/patch document: correct, omitted, or one that does not resolve
@@ -845,11 +1071,17 @@ func (g *c13Gen) genCreate() c13Doc {
 		av = "bogus/v9"
 	}
 	o := g.obj()
+	r := rng.Intn(100)
+	if r < 60 {
+		for f := range o {
+			o[f] = g.n(key.kind, true)
+		}
+	}
 	mf := c13Manifest(key, av, o)
 	d := c13Doc{valid: true, family: "create:" + mode, key: key.id, locks: mode == "CreateOrUpdate"}
 	gvr := c13Resolvable(av, key.kind.name)
 	desc := fmt.Sprintf("C/%s/%d/%s/%s", fl, key.id, c13B01(gvr), c13ObjTok(key.kind, o))
-	switch r := rng.Intn(100); {
+	switch {
 	case r < 60:
 		d.inline = true
 		d.m = map[string]any{"operation": mode, "object": mf}
@@ -918,6 +1150,11 @@ func (g *c13Gen) genPatch() c13Doc {
 		m["subresource"] = sub
 	}
 	im, ihe := rng.Chance(40), rng.Chance(20)
+	if g.statusBias > 0 && rng.Chance(g.statusBias) {
+		// what survives a failed hook: a patch of the subresource "/status" marked ignoreHookError
+		sub, subID, ihe = "/status", 2, true
+		m["subresource"] = sub
+	}
 	if im || rng.Chance(20) {
 		m["ignoreMissingObject"] = im
 	}
@@ -931,21 +1168,25 @@ func (g *c13Gen) genPatch() c13Doc {
 	case "m":
 		m["operation"] = "MergePatch"
 		root := map[string]any{}
+		form := rng.Intn(100)
 		for f := 1; f <= 3 && len(es) < 2; f++ {
 			if rng.Chance(45) || (f == 3 && len(es) == 0) {
 				if rng.Chance(70) {
-					n := rng.Range(1, 9)
+					n := g.n(k, form < 55)
 					es = append(es, c13Edit{"set", f, n})
 					root[k.fields[f-1]] = k.val(n)
 				} else {
 					es = append(es, c13Edit{"del", f, 0})
 					root[k.fields[f-1]] = nil
+					if form < 55 && rng.Chance(50) {
+						root[k.fields[f-1]] = c13ExoVal{c13NullIdx} // `~`, `Null`, ... in the YAML rendering
+					}
 				}
 			}
 		}
 		p := map[string]any{k.root: root}
 		body = c13EditsTok(k, es)
-		switch r := rng.Intn(100); {
+		switch r := form; {
 		case r < 55:
 			m["mergePatch"] = p
 		case r < 75:
@@ -964,9 +1205,10 @@ func (g *c13Gen) genPatch() c13Doc {
 	case "j":
 		m["operation"] = "JSONPatch"
 		var arr []any
+		form := rng.Intn(100)
 		for i := rng.Range(1, 2); i > 0; i-- {
 			f := rng.Range(1, 3)
-			n := rng.Range(1, 9)
+			n := g.n(k, form < 55)
 			path := "/" + k.root + "/" + k.fields[f-1]
 			switch rng.Intn(3) {
 			case 0:
@@ -981,7 +1223,7 @@ func (g *c13Gen) genPatch() c13Doc {
 			}
 		}
 		body = c13EditsTok(k, es)
-		switch r := rng.Intn(100); {
+		switch r := form; {
 		case r < 55:
 			m["jsonPatch"] = arr
 		case r < 75:
@@ -1187,7 +1429,7 @@ func c13RunCase(c *Case, rng *Rng, init map[int]c13Obj, initTok string, docs []c
 	}
 	renderings := map[string][]byte{
 		"json": c13RenderJSON(docs, garbled, rng),
-		"yaml": c13RenderYAML(docs, garbled),
+		"yaml": c13RenderYAML(docs, garbled, rng.Intn(60)),
 	}
 	sig := map[string]string{}
 	for _, form := range []string{"json", "yaml"} {
@@ -1210,18 +1452,10 @@ func c13RunCase(c *Case, rng *Rng, init map[int]c13Obj, initTok string, docs []c
 // gives every case an unrelated stream and keeps (seed, case) replays exact.
 func c13Reseed(rng *Rng) *Rng { return NewRng(rng.U64() ^ 0xD1B54A32D192ED03) }
 
-func c13Random(c *Case, rng *Rng) {
-	rng = c13Reseed(rng)
-	g := &c13Gen{rng: rng, c: c}
-	nhot := rng.Range(1, 3)
-	for i := 0; i < nhot; i++ {
-		if rng.Chance(90) {
-			g.hot = append(g.hot, PickOne(rng, c13Pool[:8]))
-		} else {
-			g.hot = append(g.hot, PickOne(rng, c13Pool[8:]))
-		}
-	}
-	init, initTok := c13Init(rng, g.hot)
+// stream generates one patch file: 1-6 documents, valid / one invalid document / an invalid document
+// behind its valid twin / truncated.
+func (g *c13Gen) stream(c *Case) ([]c13Doc, bool, string) {
+	rng := g.rng
 	n := rng.Range(1, 6)
 	var docs []c13Doc
 	for i := 0; i < n; i++ {
@@ -1264,6 +1498,23 @@ func c13Random(c *Case, rng *Rng) {
 		garbled = true
 		mode = "truncated"
 	}
+	return docs, garbled, mode
+}
+
+func c13Random(c *Case, rng *Rng) {
+	rng = c13Reseed(rng)
+	g := &c13Gen{rng: rng, c: c}
+	nhot := rng.Range(1, 3)
+	for i := 0; i < nhot; i++ {
+		if rng.Chance(90) {
+			g.hot = append(g.hot, PickOne(rng, c13Pool[:8]))
+		} else {
+			g.hot = append(g.hot, PickOne(rng, c13Pool[8:]))
+		}
+	}
+	init, initTok := c13Init(rng, g.hot)
+	docs, garbled, mode := g.stream(c)
+	n := len(docs)
 	// the history of the other clients: changes of somebody else that land between a Get and the
 	// Update of an operation that writes under the optimistic lock (CreateOrUpdate, JQPatch)
 	var writers []c13Writer
@@ -1312,6 +1563,11 @@ func c13Random(c *Case, rng *Rng) {
 	if g.ints {
 		c.Note("inline-object-with-integer-field")
 	}
+	if g.exotic > 0 {
+		c.Note("scalars-typed-differently-by-the-decoders:1+")
+	} else {
+		c.Note("scalars-typed-differently-by-the-decoders:0")
+	}
 	c.Desc = fmt.Sprintf("%d docs, %s, init=%s, other writers=%s", n, mode, initTok, c13WritersTok(writers))
 	c.Nontrivial = n >= 2
 	c13RunCase(c, rng, init, initTok, docs, garbled, writers...)
@@ -1328,6 +1584,12 @@ func runC13(r *Run) {
 		"JQPatch of the stream updates, each landing right before the next Update of that object, which a reactor on the fake client then answers " +
 		"409 Conflict; the stream is rendered as JSON and as YAML, both are run through the real " +
 		"ParseOperations + ExecuteOperations on a fresh kube-client/fake cluster and compared with each other and with the model. " +
+		"25% of the values of inline payloads are scalars the two decoders type differently (integers around and above the int64 range, " +
+		"exponents, hex/octal, unquoted timestamps, booleans, strings that look like another type, long strings), written in YAML in one of their spellings. " +
+		"Operator-level cases (64 quick / 700 thorough + 4 corpus): 1-2 executions through the real taskHandler -> handleRunHook -> Hook.Run with a real " +
+		"bash hook that writes such a stream into $KUBERNETES_PATCH_PATH and exits 0 (60%) or non-zero (40%; then 60% of the patches are /status patches " +
+		"with ignoreHookError), the two executions (70%: the same hook in two queues) overlapping in a random interleaving of launch / write / exit " +
+		"events enforced with marker files; every execution addresses its own objects and is judged on them. " +
 		"Non-trivial = at least 2 documents; distinct = distinct op-line sequence."
 	// corpus: the observed defect (YAML Create with an integer field) and hand-written order/validity cases
 	r.One(0, func(c *Case, rng *Rng) {
@@ -1453,8 +1715,36 @@ func runC13(r *Run) {
 			})
 		}
 	}
+	c13OperatorCorpus(r, 13)
+	r.One(17, func(c *Case, rng *Rng) {
+		// scalars the decoders type differently, in all three kinds of inline payload
+		dep := c13Pool[4]
+		big, date, nested := c13ExoBase+0, c13ExoBase+10, c13ExoBase+24
+		o := c13Obj{1: big, 2: date}
+		docs := []c13Doc{
+			{valid: true, inline: true, family: "create:CreateOrUpdate", key: dep.id, locks: true,
+				m:    map[string]any{"operation": "CreateOrUpdate", "object": c13Manifest(dep, dep.kind.apiVersion, o)},
+				desc: fmt.Sprintf("C/01/%d/1/%s", dep.id, c13ObjTok(dep.kind, o))},
+			{valid: true, inline: true, family: "patch:m", key: dep.id,
+				m: map[string]any{"operation": "MergePatch", "apiVersion": "apps/v1", "kind": "Deployment", "namespace": dep.ns, "name": dep.name,
+					"mergePatch": map[string]any{"spec": map[string]any{"revisionHistoryLimit": dep.kind.val(nested)}}},
+				desc: fmt.Sprintf("P/m/%d/1/0/00/set.3.%s", dep.id, dep.kind.tok(nested))},
+			{valid: true, inline: true, family: "patch:j", key: dep.id,
+				m: map[string]any{"operation": "JSONPatch", "apiVersion": "apps/v1", "kind": "Deployment", "namespace": dep.ns, "name": dep.name,
+					"jsonPatch": []any{map[string]any{"op": "add", "path": "/spec/replicas", "value": dep.kind.val(date)}}},
+				desc: fmt.Sprintf("P/j/%d/1/0/00/set.1.%s", dep.id, dep.kind.tok(date))},
+		}
+		c.Desc = "corpus: an integer above MaxInt64, an unquoted timestamp and a nested map of both in an inline object / mergePatch / jsonPatch (existing object)"
+		c.Nontrivial = true
+		c.Note("corpus")
+		init := map[int]c13Obj{dep.id: {1: 1}}
+		c13RunCase(c, rng, init, c13InitTok(init), docs, false)
+	})
 	n := r.N(400, 6000)
 	r.Cases(100, n, 64, c13Random)
+	// operator-level: real hook processes, Hook.Run, handleRunHook (hook succeeded / failed), two
+	// executions overlapping in a prescribed interleaving (see c13_operator.go)
+	r.Cases(20000, r.N(64, 700), 16, c13OperatorRandom(r))
 
 	if r.Thorough() {
 		// exhaustive small scope: every stream of 1-3 documents over a 12-symbol alphabet (3 create
